@@ -104,7 +104,17 @@ func buildC18Grid() []any {
 		}
 		add(float32(f))
 	}
-	for _, s := range []string{"1e19", "3e9", "1e300", "-1e300", "1e400", "-1e400", "1e-400", "3.4028235e38", "3.4028236e38", "3.5e38", "1e39", "9.223372036854775807e18", "9223372036854775807.5",
+	// fractions extremely close to an integer must still truncate toward zero
+	for _, b := range []float64{0, 1, 3, -29, 100, 434, 8388607, -8388608, 2147483647, -2147483648} {
+		for _, eps := range []float64{1e-6, 1e-9, 1e-10, 1e-12, 5e-16} {
+			for _, f := range []float64{b + eps, b - eps, math.Nextafter(b, math.Inf(1)), math.Nextafter(b, math.Inf(-1))} {
+				add(f)
+				add(strconv.FormatFloat(f, 'f', -1, 64))
+			}
+		}
+	}
+	for _, s := range []string{"010", "0100", "-012", "014", "0777", "08", "0_1", "0o17", "0b101", "0x1F", "1_000", "+0x10",
+		"1e19", "3e9", "1e300", "-1e300", "1e400", "-1e400", "1e-400", "3.4028235e38", "3.4028236e38", "3.5e38", "1e39", "9.223372036854775807e18", "9223372036854775807.5",
 		"9223372036854775808.0", "2147483647.9", "2147483648.0", "-2147483648.5", "-2147483649", "00012", "-0", "+0", "0.0", "-0.0", "1.", ".5", "1e0", "1E2", "12e-1", "  12", "12 ", "1,5", "1_000", "0x10", "0b11", "١٢"} {
 		add(s)
 	}
